@@ -1,2 +1,2 @@
-CONSTANTS MaxLines = 24 MaxDepth = 4 Mode = "defect" UnitKinds = {"module", "submodule", "program", "sub", "fun"} ConstructKinds = {"block", "do", "if", "select", "associate", "where"}
+CONSTANTS MaxLines = 24 MaxDepth = 4 Mode = "defect" UnitKinds = {"module", "submodule", "program", "sub", "fun"} ConstructKinds = {"block", "do", "ldo", "if", "select", "associate", "where"}
 SPECIFICATION SpecDefect
